@@ -41,6 +41,13 @@ def normalize_results(S):
         if e.kind == "call" and e.result is not None and isinstance(e.result, tuple) and e.result[0] == "res":
             table[e.result] = e
     memo = {}
+    ordinals = {}
+
+    def ordinal(tag, name):
+        k = (tag, name)
+        if k not in ordinals:
+            ordinals[k] = len([x for x in ordinals if x[0] == tag])
+        return ordinals[k]
 
     def norm(v, depth=0):
         if isinstance(v, tuple):
@@ -59,10 +66,12 @@ def normalize_results(S):
                 return ("fld", norm(v[1], depth), v[2], 0 if v[3] == 0 else 1)
             if v and v[0] in ("lambda", "opaque") :
                 return (v[0],)
+            if v and v[0] == "loopmix":
+                return ("loopmix",) + tuple(norm(x, depth) for x in v[3:])
             if v and v[0] == "loopval":
-                return ("loopval", v[2], norm(v[3], depth) if isinstance(v[3], tuple) else v[3])
+                return ("loopval", norm(v[3], depth) if isinstance(v[3], tuple) else v[3])
             if v and v[0] in ("wl", "wlout", "lc") and len(v) >= 3:
-                return (v[0], v[1]) + tuple(norm(x, depth) for x in v[3:])
+                return (v[0], ordinal(v[0] if v[0] != "wlout" else "wl", v[1])) + tuple(norm(x, depth) for x in v[3:])
             if v and v[0] == "raised":
                 return ("raised", v[2])
             return tuple(norm(x, depth) for x in v)
